@@ -36,16 +36,29 @@ class "c20-digit-run-over-int-limit": where the interpreter limits int <-> str c
 that class only if some name of the case has a digit run longer than the limit AND the failure is a ValueError raised
 by the sort; a wrong order, another exception, or a ValueError for names within the limit stay unclassified.
 
+Scaffolds built without a rank (kind "mixed").  "Sorting scaffolds by name succeeds for every set of names" and "rank takes
+precedence over name" are said of scaffolds, however they came to be: the rank is an optional argument of the constructor, and
+most scaffolds are built without one - Scaffold(name), Scaffold(name, rows=...), everything parse_agp / parse_tpf return,
+Scaffold.reverse().  Such scaffolds all stand for the same thing (no rank given), so in the output they form ONE rank class:
+made = [how, ...] says for each name how its scaffold is built (an int: Scaffold(name, rank=<int>), rank 0 given explicitly
+too; "ctor" | "rows" | "agp" | "tpf" | "reverse": without a rank).  Demanded, for every initial order: neither entry point
+raises; scaffolds_sorted_by_name gives the oracle's name order; smart_sort_scaffolds gives an order that is (rank, name)
+order for SOME one place r* of the no-rank class among the ranks (before all, level with one of them, between two, after
+all - the statement does not say which, only that there is an order and rank comes first in it), the scaffolds with a rank
+among themselves by (rank, name), those without among themselves by name; and the same order from every initial order.
+
 attr = {"haplotype": str|None, "tag": str|None, "original_name": str|None, "original_tags": [str]|None,
         "rows": [[contig name, length, strand], ...]}   (a missing key = the constructor's default)
 """
 
+import io
 import itertools
 import random
 import sys
 
 from tola.assembly.assembly import Assembly
 from tola.assembly.fragment import Fragment
+from tola.assembly.parser import parse_agp, parse_tpf
 from tola.assembly.scaffold import Scaffold
 
 from .common import Collector
@@ -866,10 +879,177 @@ def digit_cases(quick):
             yield {"kind": "digits", "digits": digits, "where": where, "lead": "19"[k % 2], "others": pool, "ranks": ranks}
 
 
+# ---------------------------------------------------------------------------------------------
+# scaffolds built without a rank, mixed with scaffolds that were given one
+
+UNRANKED_HOWS = ["ctor", "rows", "agp", "tpf", "reverse"]
+HOW_TEXT = {
+    "ctor": "Scaffold(name)", "rows": "Scaffold(name, rows=[...])", "agp": "parse_agp output", "tpf": "parse_tpf output",
+    "reverse": "Scaffold(name, rows=[...]).reverse()",
+}
+
+
+def make_scaffold(name, how):
+    """a scaffold of this name built in the way `how` says (see the module docstring)"""
+    if isinstance(how, int) and not isinstance(how, bool):
+        return Scaffold(name, rank=how)
+    if how == "ctor":
+        return Scaffold(name)
+    if how == "rows":
+        return Scaffold(name, rows=[Fragment("ctg_1", 1, 100, 1)])
+    if how == "reverse":
+        return Scaffold(name, rows=[Fragment("ctg_1", 1, 100, 1), Fragment("ctg_2", 5, 50, -1)]).reverse()
+    if how == "agp":
+        asm = parse_agp(io.StringIO(f"{name}\t1\t100\t1\tW\tctg_1\t1\t100\t+\n{name}\t101\t300\t2\tU\t200\tscaffold\tyes\tproximity_ligation\n"), "parsed")
+    elif how == "tpf":
+        asm = parse_tpf(io.StringIO(f"?\tctg_1:1-100\t{name}\tPLUS\nGAP\tTYPE-2\t200\n"), "parsed")
+    else:
+        raise ValueError(f"unknown way of building a scaffold: {how!r}")
+    (sc,) = asm.scaffolds
+    return sc
+
+
+def describe_made(names, made):
+    return "[" + ", ".join(f"'{nm}': " + (f"rank={h} given" if isinstance(h, int) else f"no rank given ({HOW_TEXT[h]})") for nm, h in zip(names, made)) + "]"
+
+
+def rank_places(ranks):
+    """every place the no-rank class can take among these ranks: before all, level with each, between neighbours, after all"""
+    rs = sorted(set(ranks))
+    if not rs:
+        return [0]
+    out = [rs[0] - 1]
+    for a, b in zip(rs, rs[1:] + [rs[-1] + 2]):
+        out += [a, (a + b) / 2]
+    return out
+
+
+def judge_mixed(given, hows, out, by_rank):
+    """given[i] was built as hows[i] says; out is what the sort made of them -> (message | None, the order as comparable data)"""
+    if sorted(map(id, given)) != sorted(map(id, out)):
+        return "output is not a rearrangement of the input scaffolds", None
+    how_of = {id(sc): h for sc, h in zip(given, hows)}
+    seq = [(how_of[id(sc)] if isinstance(how_of[id(sc)], int) else None, sc.name) for sc in out]
+    if not by_rank:
+        for (_, a), (_, b) in zip(seq, seq[1:]):
+            if ocmp(okey(a), okey(b)) > 0:
+                return f"'{a}' placed before '{b}' ({okey(a)} > {okey(b)})", None
+        return None, [tuple(okey(nm)) for _, nm in seq]
+    # those with a rank among themselves, those without among themselves
+    for label, part in (("with a rank", [x for x in seq if x[0] is not None]), ("without a rank", [x for x in seq if x[0] is None])):
+        for (ra, a), (rb, b) in zip(part, part[1:]):
+            if ra is not None and ra != rb:
+                if ra > rb:
+                    return f"'{a}' (rank {ra}) placed before '{b}' (rank {rb})", None
+            elif ocmp(okey(a), okey(b)) > 0:
+                return f"among the scaffolds {label}{'' if ra is None else f' {ra}'}: '{a}' placed before '{b}' ({okey(a)} > {okey(b)})", None
+    # and together: one place for the no-rank class; the order is returned as it reads under every place that fits (scaffolds
+    # with equal rank and equal key may stand in any order: "up to names with equal keys")
+    places = rank_places([r for r, _ in seq if r is not None])
+    fits = {}
+    for place in places:
+        eff = [(place if r is None else r, nm) for r, nm in seq]
+        if all(x[0] < y[0] or (x[0] == y[0] and ocmp(okey(x[1]), okey(y[1])) <= 0) for x, y in zip(eff, eff[1:])):
+            fits[place] = [(r, tuple(okey(nm))) for r, nm in eff]
+    if fits:
+        return None, fits
+    shown = [nm if r is None else f"{nm} (rank {r})" for r, nm in seq]
+    return f"the output {shown} is not in (rank, name) order wherever the scaffolds without a rank are ranked (tried {places})", None
+
+
+def check_mixed(names, made, col, inp=None, all_orders=True):
+    """both entry points, every initial order (<= 5 names; else the given order, reversed and two rotations)"""
+    inp = inp or {"kind": "mixed", "names": list(names), "made": list(made)}
+    n = len(names)
+    what = f"scaffolds {describe_made(names, made)}"
+    orders = itertools.permutations(range(n)) if (all_orders and n <= 5) else some_orders(n, False)
+    first = {}
+    for perm in orders:
+        nm = [names[i] for i in perm]
+        hw = [made[i] for i in perm]
+        for fn in ("scaffolds_sorted_by_name", "smart_sort_scaffolds"):
+            col.evaluations += 1
+            try:
+                given = [make_scaffold(a, h) for a, h in zip(nm, hw)]
+            except Exception as e:
+                col.fail(f"building the scaffolds raised {type(e).__name__}: {e}; {what}", inp)
+                return
+            asm = Assembly("a", scaffolds=list(given))
+            try:
+                if fn.startswith("smart"):
+                    asm.smart_sort_scaffolds()
+                    out = list(asm.scaffolds)
+                else:
+                    out = asm.scaffolds_sorted_by_name()
+            except Exception as e:
+                col.fail(
+                    f"{fn} raised {type(e).__name__}: {str(e)[:200]} for {what} in the initial order {nm}: sorting has to succeed for every set of "
+                    "scaffolds, whether they were built with a rank, without one, or some with and some without",
+                    inp,
+                )
+                return
+            msg, order = judge_mixed(given, hw, out, fn.startswith("smart"))
+            if msg:
+                col.fail(f"{fn}: {msg}; {what}, initial order {nm}", inp)
+                return
+            if fn not in first:
+                first[fn] = order
+            elif isinstance(order, dict):
+                # one place of the no-rank class has to fit every initial order, and give the same order each time
+                first[fn] = {pl: sq for pl, sq in first[fn].items() if order.get(pl) == sq}
+                if not first[fn]:
+                    col.fail(f"{fn}: the order depends on the initial order (no one place of the scaffolds without a rank among the ranks gives the order of every run); {what}, initial order {nm}", inp)
+                    return
+            elif order != first[fn]:
+                col.fail(f"{fn}: the order depends on the initial order; {what}", inp)
+                return
+
+
+MIXED_SETS = [
+    (["scaffold_10", "scaffold_2", "SUPER_2", "SUPER_10", "SUPER_X"], ["ctor", "ctor", 1, 1, 2]),
+    (["scaffold_3", "scaffold_1", "SUPER_1"], ["agp", "agp", 1]),
+    (["scaffold_3", "scaffold_1", "SUPER_1", "unplaced_7"], ["tpf", "tpf", 1, 3]),
+    (["SUPER_1", "SUPER_2", "SUPER_2_unloc_1", "SUPER_3"], [1, "reverse", 1, 1]),
+    (["a", "b", "c"], ["ctor", 0, "ctor"]),
+    (["S2", "S10", "S1", "S1"], [0, "ctor", 0, "rows"]),
+    (["I", "II", "IV", "III"], ["ctor", 3, 2, "agp"]),
+    (["chr9", "chr10", "chrX", "chr09", "chr1"], ["agp", "tpf", "ctor", "reverse", 2]),
+    (["x", "x"], ["ctor", 1]),
+    (["b", "a"], ["ctor", "agp"]),
+    (["H_1", "H_2", "H_11", "H_3"], ["rows", 3, 3, 0]),
+    (["SUPER_1", "SUPER_1", "SUPER_01"], [1, "ctor", 0]),
+]
+
+
+def mixed_cases(quick, rng, names):
+    """(names, made)"""
+    yield from MIXED_SETS
+    # every way of building without a rank against every rank, two names in both name orders
+    for how in UNRANKED_HOWS:
+        for rank in (0, 1, 2, 3):
+            yield ["SUPER_2", "SUPER_10"], [how, rank]
+            yield ["SUPER_2", "SUPER_10"], [rank, how]
+    pool = INTERESTING + PREFIXED + names[:600]
+    for k in range(60 if quick else 3000):
+        n = rng.randint(2, 4 if quick else 5)
+        chosen = [rng.choice(pool) for _ in range(n)]
+        if n > 2 and rng.random() < 0.3:
+            chosen[-1] = chosen[0]
+        made = [rng.choice(UNRANKED_HOWS) if rng.random() < 0.5 else rng.choice((0, 1, 1, 2, 3)) for _ in range(n)]
+        if k % 4 == 0:  # at least one of each kind
+            made[0], made[1] = rng.choice(UNRANKED_HOWS), rng.choice((0, 1, 2, 3))
+        yield chosen, made
+    for k in range(10 if quick else 300):  # longer lists, a few initial orders
+        n = rng.randint(6, 30)
+        yield [rng.choice(pool) for _ in range(n)], [rng.choice(UNRANKED_HOWS) if rng.random() < 0.4 else rng.choice((0, 1, 2, 3)) for _ in range(n)]
+
+
 def replay(inp):
     col = Collector("replay")
     rng = random.Random(0)
-    if inp["kind"] == "digits":
+    if inp["kind"] == "mixed":
+        check_mixed(inp["names"], inp["made"], col, inp)
+    elif inp["kind"] == "digits":
         check_digits(inp, col)
     elif inp["kind"] == "long":
         check_long(inp["spec"], inp.get("ranks"), col, inp)
@@ -934,6 +1114,9 @@ def run(tier, seed, **opts):
         "around every power of two to 16 384, 20 000), every initial order (longest names: 7 orders), and 30-120 such names in one sort; "
         "(8) a name with a run of 4300 / 4301 (thorough: 4299 .. 10 000) digits at its start, middle or end, its twin and ordinary names, both "
         "entry points, all initial orders (known class c20-digit-run-over-int-limit: ValueError beyond sys.get_int_max_str_digits()); "
+        "(9) scaffolds built without a rank (Scaffold(name), with rows, parse_agp / parse_tpf output, reverse()) mixed with scaffolds given rank "
+        "0..3: every way of building x every rank, hand-made and random sets of <= 5 under all initial orders, lists of <= 30: no exception, name "
+        "order by name, one place for the no-rank class in the (rank, name) order, the same order from every initial order; "
         "non-trivial = distinct name multisets / pairs sorted",
         max_failures=40,  # up to 10 of them are of the known class (very long digit runs, run last)
     )
@@ -1099,6 +1282,17 @@ def run(tier, seed, **opts):
         col.distinct.add(("history", repr(stages)))
         if n_hist == 3:
             col.samples.append(inp)
+    # (9) scaffolds built without a rank (constructor default, parser output, reverse()) mixed with ranked ones; its own seeded stream
+    n_mixed = 0
+    rng_mixed = random.Random(f"c20-mixed-{seed}")
+    for chosen, made in mixed_cases(quick, rng_mixed, names):
+        if col.full:
+            break
+        check_mixed(chosen, made, col)
+        n_mixed += 1
+        col.distinct.add(("mixed", tuple(chosen), tuple(made)))
+        if n_mixed == 2:
+            col.samples.append({"kind": "mixed", "names": chosen, "made": made})
     # (8) very long digit runs, last: the failures of the known class must not take the place of others
     n_digits = 0
     for inp in digit_cases(quick):
@@ -1113,6 +1307,6 @@ def run(tier, seed, **opts):
         + f"; {n_sets} multisets of <= 5 names x all permutations; {len(PREFIXES) * 3} families up to n = 120; 18 nematode sets; "
         f"{n_hist} histories of 2-4 stages on the same <= 6 scaffold objects; {n_attr} name sets / lists / families with attributes other than name and rank; "
         f"{n_long} sets / lists of long names (up to {2500 if quick else 20000} numbers or {5000 if quick else 100000} letters in front of the number that decides); "
-        f"{n_digits} cases with a digit run of up to {4301 if quick else 10000} digits",
+        f"{n_digits} cases with a digit run of up to {4301 if quick else 10000} digits; {n_mixed} sets / lists mixing scaffolds built without a rank and with one",
         exhaustive=True,
     )
